@@ -34,6 +34,14 @@ CHECKS = {
          "For every (mode, definition) the tables ship (all variants), every enumerated group count and boundary value, and both bitfield views, the parsed message exposes exactly the names the reference layout predicts, in order, each equal to the reference decoding of its bytes, and the identity is the message-ID table's name.",
          "reference model in /verif/mc/refmodel/layout.py written from the README grammar; interior values of 4/8-byte fields and simultaneous extremes are not enumerated; scaled values accepted within 0.5e-12 (documented rounding).",
          "DESIGN.md §5 C02"),
+ "C01": ("bounded exhaustive exploration of the real parser/serializer over all 65,536 class/IDs x short lengths and every named class/ID x every length 0..nominal+16 x fills x msgmode x bitfield view; round-trip oracle incl. eval(repr)",
+         "Every frame of the enumerated spaces that parse accepts re-serializes to the input bytes, reports the frame's class, ID, length and payload, and eval(repr(msg)) serializes identically.",
+         "frames built with an independent Fletcher implementation; payload contents limited to 4 fill patterns; count-amplifying (class/ID, fill) pairs explored at boundary lengths only (listed in evidence).",
+         "DESIGN.md §5 C01"),
+ "C08": ("bounded exhaustive exploration: C01's frame spaces with both validate settings, all byte strings over a header alphabet handed to parse, and byte/token streams under the full configuration product; oracle = exception class + inspection + deterministic termination horizon",
+         "No enumerated input makes parse raise anything but a UBX* error or return a message that cannot be inspected; no enumerated stream/configuration makes iteration exceed the horizon, raise under IGNORE/LOG, or raise a non-protocol exception under RAISE.",
+         "60 s watchdog for a single call; horizon 4*len+16 stream calls; inputs outside the enumerated alphabets/lengths not covered.",
+         "DESIGN.md §5 C08"),
 }
 NOT_YET = "check not built yet in this round (planned: see DESIGN.md §5)"
 
